@@ -95,11 +95,22 @@ def make_cfg(limit, uset, la, lb):
     return {"limit": limit, "users": users}
 
 
-def fin_from_gen():
-    txt = (core.COQ / "Gen" / "Dispatch.v").read_text()
+# the two statements of the dispatcher's finally block the model interprets, as the current source has them; used ONLY
+# when the translator could not read the source (a broken obligation by itself): the implementation is then still run
+# against the model of the unchanged code and the oracle, so that a concrete failing input can be found
+FALLBACK_FIN = ["acquired=>release:server_slot", "has:user=>notify_logout"]
+
+
+def fin_from_gen(ctx=None):
+    try:
+        txt = (core.COQ / "Gen" / "Dispatch.v").read_text()
+    except OSError:
+        txt = ""
     m = re.search(r"d_finally := \[(.*?)\];", txt, re.S)
     if not m:
-        raise RuntimeError("d_finally not found in Gen/Dispatch.v")
+        if ctx is not None:
+            ctx.obligation_broken("Gen.Dispatch.d_finally", "the translator did not produce the dispatcher's finally block; model run with the unchanged block")
+        return list(FALLBACK_FIN)
     return re.findall(r'"((?:[^"]|"")*)"', m.group(1))
 
 
@@ -611,7 +622,7 @@ def tojson(a):
 def correspondence(ctx, budget=None):
     rng = ctx.rng
     thorough = ctx.tier == "thorough"
-    fin = fin_from_gen()
+    fin = fin_from_gen(ctx)
     ctx.extra["rule"] = (
         "histories of actions {connect, USER a|b|zz|boom, PASS pw|bad|boom, NOOP, QUIT, pipelined bursts of those, drop (EOF), "
         "reset (RST), drop in the middle of a command line, idle timeout (virtual time, other sessions refreshed), server.close(), "
